@@ -5,3 +5,7 @@ import AnyTLS.Props.C07
 #print axioms AnyTLS.C07.resolve_port
 #print axioms AnyTLS.C07.resolve_ip_of_host
 #print axioms AnyTLS.C07.pinned_hit_wrong_port
+#print axioms AnyTLS.C07.gen_magic_rule
+#print axioms AnyTLS.C07.ordinary_names_are_dialled
+#print axioms AnyTLS.C07.client_magic_recognised
+#print axioms AnyTLS.C07.contains_rule_refuted
